@@ -105,7 +105,13 @@ Section Machine.
         ([BVal (UL (map UN (fold_left padd (map (fun j => r_used (m_res M) (s_st (get_slot sl j))) ks)
                                        (r_used (m_res M) (s_st (get_slot sl k))))))], Some sl)
     | OHeap k => ([BVal (UL (map UN (r_used (m_res M) (s_st (get_slot sl k)))))], Some sl)
-    | OSerde k => ([BNone], Some sl)
+    | OSerde k =>
+        (* the serialised state before the round trip and of the deserialised value: the model's round
+           trip is the identity, so both are the state's own serialised form *)
+        match m_ser M with
+        | Some sr => let u := r_ser sr (s_st (get_slot sl k)) in ([BVal (UL [u; u])], Some sl)
+        | None => ([BNone], Some sl)
+        end
     | OAllocs k => ([BNone], Some sl)
     | OCmp k i a l j b =>
         let fetch (x : slot) (n : nat) (owned : bool) : option (res (item I)) :=
